@@ -150,6 +150,9 @@ def run(rep):
     ml = ['core %d %d 0 %s' % (s, 6000, G.to_sexp(p)) for _, _, p, s in jobs]
     io = [C.canon_impl(a) for a in vlib.impl(il)]
     mo = vlib.model(ml)
+    # the same source texts, each under its limit, through the whole-pipeline model (lexer + parser + lowering + evaluator)
+    C.check_pipe(rep, 'c10:', [G.to_jsonnet(p) for _, _, p, _ in jobs], io, mo, max_stack=[s for _, _, _, s in jobs], fuel=6000, traces=False,
+                 label='nesting shapes x limits')
     by_case = {}
     for (name, D, prog, s), a, b in zip(jobs, io, mo):
         by_case.setdefault((name, D), []).append((s, a, b, prog))
@@ -195,6 +198,7 @@ def run(rep):
     res = {}
     for s in lims:
         srcs, io2, mo2 = C.run_pair(progs, max_stack=s, fuel=6000, traces=False)
+        C.check_pipe(rep, 'c10g:%d:' % s, srcs, io2, mo2, max_stack=s, fuel=6000, traces=False, label='generated x small limits')
         for i, (src, a, b) in enumerate(zip(srcs, io2, mo2)):
             res.setdefault(i, []).append((s, a))
             rep.count('c10g:%d:%s' % (s, src), classify(a) == 'SO')
@@ -388,7 +392,9 @@ def replay(r):
     if 'sexp' in rp:
         b = vlib.model(['core %d 6000 0 %s' % (rp.get('max_stack', 500), rp['sexp'])])[0]
         print('model:', b)
-        return 0 if C.norm(a) == C.norm(b) else 1
+        return 0 if C.norm(a) == C.norm(b) and not C.replay_pipe(rp, a) else 1
+    if 'pipe' in rp:
+        return C.replay_pipe(rp, a)
     if rp.get('max_stack', 0) > 10 ** 5:
         b = C.canon_impl(vlib.impl([vlib.eval_line(rp['src'], max_stack=500)])[0])
         print('limit 500:', b)
